@@ -5,6 +5,7 @@ import MinterModel.Events
 import MinterModel.Persist
 import MinterModel.BeginBlock
 import MinterModel.Rules
+import MinterModel.OrdersQ
 /-
   Dispatcher over every component's `Q` evaluator.  A component adds one line here.
 -/
@@ -19,5 +20,6 @@ def evalQ (fn : String) (args : List String) : Option String :=
   <|> Persist.persistEvalQ fn args
   <|> beginEvalQ fn args
   <|> Rules.rulesEvalQ fn args
+  <|> ordersEvalQ fn args
 
 end Minter
